@@ -79,6 +79,28 @@ pub fn trace(args: &Args) {
             }
         }
     }
+    // long buffers with heavy differences (accumulators must not overflow or wrap): every byte
+    // differs by 0xff; 257 x 0xff + 1 x 0x01 (xor sum = 65536); only the last / first byte differs
+    for len in [255usize, 256, 257, 258, 259, 300, 512, 1024, 4096] {
+        if len as u64 > args.num("long", 0) { continue; }
+        let a = rng.bytes(len);
+        let all: Vec<u8> = a.iter().map(|x| x ^ 0xff).collect();
+        let mut wrap = a.clone();
+        for (i, x) in wrap.iter_mut().enumerate() { if i < 257 { *x ^= 0xff } else if i == 257 { *x ^= 0x01 } }
+        let mut lastb = a.clone();
+        lastb[len - 1] ^= 0x40;
+        let mut firstb = a.clone();
+        firstb[0] ^= 0x02;
+        for b in [all, wrap, lastb, firstb, a.clone()] {
+            match catch(|| (cmp_i(&a, &b), eq_b(&a, &b))) {
+                Ok((c, e)) => {
+                    out.ev(json!({"ev": "memcmp", "a": a, "b": b, "res": c}));
+                    out.ev(json!({"ev": "memeq", "a": a, "b": b, "res": e}));
+                }
+                Err(m) => out.ev(json!({"ev": "panic", "fn": "long", "len": len, "panic": m})),
+            }
+        }
+    }
     for k in 0..n {
         let len = rng.range(1, maxlen) as usize;
         let a = rng.bytes(len);
